@@ -116,6 +116,9 @@ def run(chk: framework.Check):
             case, found_input=False)
     chk.extra["rule"] = ("random worlds x types x {valid, mutated, junk} payloads x 10 converter configurations; "
                          "non-trivial = non-leaf type; distinct by canonical text of (cfg, type, payload)")
+    # implementation-only extended stream (unions, NamedTuples, registry hooks, one-shot iterables)
+    from harness import ext
+    ext.run_c02(chk, 150 if chk.tier == "quick" else 1500)
     drv.close()
 
 
